@@ -45,6 +45,8 @@ struct Fiber {
     bool started = false;
 };
 
+static int g_stack_fill = 0xAA;
+
 const char* strategy_name(int s) {
     static const char *n[] = {"canonical","reverse","random","pct","starve","explicit"};
     return (s >= 0 && s < NSTRATEGY) ? n[s] : "?";
@@ -231,6 +233,7 @@ void trampoline() {
 
 } // anonymous
 
+void set_stack_fill(int byte) { g_stack_fill = byte; }
 bool in_world() { return g.active; }
 
 Fiber* current() { return g.active ? g.cur : &outside_fiber; }
@@ -260,6 +263,10 @@ Fiber* spawn(entry_t fn, void *arg, Ctx *ctx, Team *team, int tid, int starve_ke
     f->stack_size = team ? STACK_SMALL : STACK_LARGE;
     f->stack = get_stack(f->stack_size);
     f->prio = (g.cfg.strategy == PCT) ? (long)(g.srng.next() >> 2) : 0;
+#if !SIM_ASAN
+    // pre-dirtied stack: whatever a fresh frame finds there must not matter (uninitialised stack arrays)
+    { size_t d = 48u << 10; memset(f->stack + f->stack_size - d, g_stack_fill, d); }
+#endif
     getcontext(&f->uc);
     f->uc.uc_stack.ss_sp = f->stack; f->uc.uc_stack.ss_size = f->stack_size; f->uc.uc_link = 0;
     makecontext(&f->uc, (void(*)())trampoline, 0);
